@@ -1,7 +1,7 @@
 /-
 C08 — annotate changes nothing but the header.
 
-Model: `Model.findAndReplaceHeader`, `Model.addNewHeader`, `Model.annotateCore`, `Model.annotateText`
+Model: `Model.findAndReplaceHeader`, `Model.addNewHeader`, `Model.annotateText`, `Model.annotateFile`
 (src/reuse/header.py, src/reuse/_annotate.py).  Spec: `Spec.Splice` / `Spec.SpliceAt` (Spec/Splice.lean).
 The header generator is arbitrary: whatever `createHeader` returned is the block `hdr` of the statements
 (template, style, merging of old information are the business of C07 / C09).
@@ -172,8 +172,8 @@ theorem C08_head {hdr pre post out : Text} (hs : SpliceAt hdr pre post out) (hnb
     the LF text gives: every line break written is CRLF and nothing else differs. -/
 theorem C08_line_endings_crlf (c : HdrCfg) (replace : Bool) (info : Extracted) (u : Text)
     (hcr : NoCR u) (hlf : '\n' ∈ u) :
-    annotateCore c replace false info (toCRLF u) = (annotateCore c replace false info u).mapWritten toCRLF := by
-  unfold annotateCore
+    annotateText c replace false info (toCRLF u) = (annotateText c replace false info u).mapWritten toCRLF := by
+  unfold annotateText
   simp only [Bool.false_and, Bool.false_eq_true, if_false, detect_crlf hlf, detect_lf hcr, replace_crlf_back u hcr,
     replace_lf_lf]
   cases (if replace = true then findAndReplaceHeader c info u else addNewHeader c info u) with
@@ -185,8 +185,8 @@ theorem C08_line_endings_crlf (c : HdrCfg) (replace : Bool) (info : Extracted) (
 /-- **Line endings, CR.** -/
 theorem C08_line_endings_cr (c : HdrCfg) (replace : Bool) (info : Extracted) (u : Text)
     (hcr : NoCR u) (hlf : '\n' ∈ u) :
-    annotateCore c replace false info (toCR u) = (annotateCore c replace false info u).mapWritten toCR := by
-  unfold annotateCore
+    annotateText c replace false info (toCR u) = (annotateText c replace false info u).mapWritten toCR := by
+  unfold annotateText
   simp only [Bool.false_and, Bool.false_eq_true, if_false, detect_cr hlf, detect_lf hcr, replace_cr_back u hcr,
     replace_lf_lf]
   cases (if replace = true then findAndReplaceHeader c info u else addNewHeader c info u) with
@@ -198,30 +198,30 @@ theorem C08_line_endings_cr (c : HdrCfg) (replace : Bool) (info : Extracted) (u 
 /-- **Line endings, LF.**  On a text without carriage return nothing is translated: what is written is what
     `find_and_replace_header` / `add_new_header` returned. -/
 theorem C08_line_endings_lf (c : HdrCfg) (replace : Bool) (info : Extracted) (u : Text) (hcr : NoCR u) :
-    annotateCore c replace false info u =
+    annotateText c replace false info u =
       match (if replace then findAndReplaceHeader c info u else addNewHeader c info u) with
       | .ok o => .written o
       | .error e => .failed e := by
-  unfold annotateCore
+  unfold annotateText
   simp only [Bool.false_and, Bool.false_eq_true, if_false, detect_lf hcr, replace_lf_lf]
   cases (if replace = true then findAndReplaceHeader c info u else addNewHeader c info u) <;> rfl
 
 /-- **Byte order mark.**  A leading U+FEFF is set aside and stays the first character of what is written. -/
 theorem C08_bom (c : HdrCfg) (replace skip : Bool) (info : Extracted) (t : Text) :
-    annotateText c replace skip info (bomChar :: t) =
-      (annotateCore c replace skip info t).mapWritten (bomChar :: ·) := by
-  simp [annotateText]
+    annotateFile c replace skip info (bomChar :: t) =
+      (annotateText c replace skip info t).mapWritten (bomChar :: ·) := by
+  simp [annotateFile]
 
-/-- without a byte order mark `annotateText` is `annotateCore` -/
+/-- without a byte order mark `annotateFile` is `annotateText` -/
 theorem C08_no_bom (c : HdrCfg) (replace skip : Bool) (info : Extracted) (t : Text)
-    (h : t.head? ≠ some bomChar) : annotateText c replace skip info t = annotateCore c replace skip info t := by
+    (h : t.head? ≠ some bomChar) : annotateFile c replace skip info t = annotateText c replace skip info t := by
   cases t with
   | nil => rfl
   | cons ch cs =>
     have : (ch == bomChar) = false := by
       simp only [List.head?_cons, ne_eq, Option.some.injEq] at h
       simpa using h
-    simp [annotateText, this]
+    simp [annotateFile, this]
 
 /-- **Table obligation.**  Every first-line marker of every style of the generated table is non-empty, contains
     no line boundary and is not white space only. -/
